@@ -1522,6 +1522,15 @@ def gen_for_block(node, code, codegen):
 
     var = node.var.get_base_variable()
 
+    # a loop variable which is a (by-reference) parameter has to be
+    # accessed through the reference in its cell
+    if node.var.base_is_ref:
+        read_var = [(f'read{scope}@', var.name), (f'deref{type_char}',)]
+        write_var = [(f'read{scope}@', var.name), ('storeref',)]
+    else:
+        read_var = [(f'read{scope}{type_char}', var.name)]
+        write_var = [(f'store{scope}', var.name)]
+
     code.add(('_label', init_label))
     if node.step_expr:
         codegen.gen_code_for_node(node.step_expr, code)
@@ -1541,25 +1550,15 @@ def gen_for_block(node, code, codegen):
         )
     codegen.gen_code_for_node(node.from_expr, code)
     gen_code_for_conv(var_type, node.from_expr, code, codegen)
-    code.add((f'store{scope}', var.name))
+    code.add(*write_var)
     codegen.gen_code_for_node(node.to_expr, code)
     gen_code_for_conv(var_type, node.to_expr, code, codegen)
     code.add(('storel', to_var))
 
-    # make sure the range is compatible with the step value (by
-    # checking if (to - from) has the same sign as step value). if
-    # not, skip the loop.
-    code.add(
-        (f'readl{type_char}', to_var),
-        (f'read{scope}{type_char}', var.name),
-        ('sub',),
-        (f'readl{type_char}', step_sign_var),
-        ('mul',),
-        (f'push{type_char}', 0),
-        ('cmp',),
-        ('ge',),
-        ('jz', end_label),
-    )
+    # Whether the range is compatible with the step value is decided
+    # by the loop check below, which runs before the first iteration
+    # (computing "to - from" here could overflow, for example in
+    # FOR i% = -30000 TO 30000).
 
     # multiply "to" value with the step sign so that we can always use
     # the same compare instruction
@@ -1572,7 +1571,7 @@ def gen_for_block(node, code, codegen):
 
     code.add(('_label', check_label))
     code.add(
-        (f'read{scope}{type_char}', var.name),
+        *read_var,
         (f'readl{type_char}', step_sign_var),
         ('mul',),
         (f'readl{type_char}', to_var),
@@ -1586,10 +1585,10 @@ def gen_for_block(node, code, codegen):
 
     code.add(
         ('_label', next_label),
-        (f'read{scope}{type_char}', var.name),
+        *read_var,
         (f'readl{type_char}', step_var),
         ('add',),
-        (f'store{scope}', var.name),
+        *write_var,
         ('jmp', check_label),
     )
 
